@@ -220,29 +220,30 @@ def equal_spellings(ctx, label, w):
 
 
 def macro_structure(ctx):
-    """Structural rules on the macro crate itself (its MIR call inventory)."""
+    """Structural rules on the macro crate itself — independent of function
+    names: every sort anywhere in the proc-macro crate is the stable slice
+    sort with an exact single-key comparator."""
+    from . import term as T, thirwalk
+    from .rules_c02 import subst
     fs = facts.factset("f64-all")
     c = fs.get("qty_macros")
-    an = c.mir.get("qty_macros::quantity_attr_helper::analyze")
-    if an is None:
-        raise ModelError("anchor", "qty_macros::quantity_attr_helper::analyze not found")
-    callees = [(cl["fn"]["path"] if cl.get("fn") else "?") for cl in an["calls"] if not cl["cleanup"]]
-    sorts = [p for p in callees if "sort" in p]
-    ctx.ob("macro-stable-sort", "analyze", bool(sorts) and all("unstable" not in p for p in sorts) and all(p.startswith("alloc::slice::<impl [T]>::sort_by") for p in sorts),
-           "analyze() orders the units with %s: the declaration order of equal-scale units is only preserved by the stable slice sort" % sorts,
-           "qty-macros/src/quantity_attr_helper.rs (analyze)")
-    # the comparators handed to the sort are exact orderings of one key of each element
-    from . import term as T, thirwalk
-    ab = c.bodies.get("qty_macros::quantity_attr_helper::analyze")
-    sort_calls = thirwalk.calls(ab["value"], lambda f: f["name"] in ("sort_by", "sort_by_key", "sort_by_cached_key", "sort")) if ab else []
-    ctx.ob("macro-sort-calls", "analyze", len(sort_calls) == 2, "analyze() contains %d sort calls, expected one per code path (by scale / by name)" % len(sort_calls),
-           ab and ab["span"])
     U = model.Universe(fs, [c])
-    for i, sc_ in enumerate(sort_calls):
-        clos = [a for a in sc_["args"] if model.peel(a) and model.peel(a)["k"] == "closure"]
-        inst = "analyze/sort#%d" % i
+    sorts = []
+    for path, body in c.bodies.items():
+        if "::tests::" in path or "_tests::" in path:
+            continue
+        for call in thirwalk.calls(body.get("value"), lambda f: "sort" in f["name"]):
+            sorts.append((path, body, call))
+    ctx.ob("macro-sort-calls", "qty_macros", len(sorts) >= 2,
+           "the macro crate contains %d sort calls; the unit order by scale and by name needs one each" % len(sorts), c.src)
+    for i, (path, body, call) in enumerate(sorts):
+        f = call["fn"]
+        inst = "%s/sort#%d" % (path.split("::")[-1], i)
+        ctx.ob("macro-stable-sort", inst, f["path"].startswith("alloc::slice::<impl [T]>::sort_by") and "unstable" not in f["path"],
+               "units are ordered with %s: the declaration order of equal-scale units is only preserved by the stable slice sort" % f["path"], call.get("sp"))
+        clos = [a for a in call["args"] if model.peel(a) and model.peel(a)["k"] == "closure"]
         if len(clos) != 1:
-            ctx.fail("macro-comparator", inst, "sort call without a closure comparator", sc_.get("sp"))
+            ctx.fail("macro-comparator", inst, "sort call without a closure comparator", call.get("sp"))
             continue
         cdef = model.peel(clos[0])["def"]
         ev = T.Evaluator(U, keep_tags=False, max_depth=0)
@@ -250,7 +251,7 @@ def macro_structure(ctx):
         try:
             outs = ev.summarize_closure(("closure", cdef, ()), [A, B])
         except T.Unsupported as x:
-            ctx.fail("macro-comparator", inst, "unsupported construct in the sort comparator: " + x.what, x.sp or sc_.get("sp"))
+            ctx.fail("macro-comparator", inst, "unsupported construct in the sort comparator: " + x.what, x.sp or call.get("sp"))
             continue
         desc = "; ".join("[%s] %s" % (T.show_guard(g), T.show(T.canon(t))) for g, k, t in outs)
         ok = False
@@ -264,7 +265,6 @@ def macro_structure(ctx):
             elif t[0] == "app" and t[1].endswith("::cmp") and len(t[3]) == 2:
                 pair = (t[3][0], t[3][1])
             if pair:
-                from .rules_c02 import subst
                 fl = flatten(pair[0])
                 ok = T.canon(subst(pair[0], {A: B})) == T.canon(pair[1]) and A in fl and B not in fl
                 # the key is the declared scale (reference-unit path) resp. the unit NAME (other path)
@@ -273,15 +273,7 @@ def macro_structure(ctx):
                 desc += "  [key field: %s]" % keyfield
         ctx.ob("macro-comparator", inst, ok,
                "the sort comparator is not an exact ordering `key(a).cmp(key(b))` of the specified key (scale literal / unit name) — observed: %s" % desc,
-               sc_.get("sp"))
-    cg = c.mir.get("qty_macros::quantity_attr_helper::codegen")
-    if cg is None:
-        raise ModelError("anchor", "qty_macros::quantity_attr_helper::codegen not found")
-    gens = sorted({cl["fn"]["path"].rsplit("::", 1)[1] for cl in cg["calls"] if cl.get("fn") and "codegen_qty_" in cl["fn"]["path"]})
-    ctx.ob("macro-three-paths", "codegen", gens == ["codegen_qty_single_unit", "codegen_qty_with_ref_unit", "codegen_qty_without_ref_unit"],
-           "codegen() selects among %s" % gens, "qty-macros/src/quantity_attr_helper.rs (codegen)")
-    sc = c.bodies.get("qty_macros::quantity_attr_helper::codegen_fn_scale")
-    ctx.ob("macro-anchor", "codegen_fn_scale", sc is not None, "codegen_fn_scale not found", None, nontrivial=False)
+               call.get("sp"))
 
 
 def flatten(t, acc=None):
